@@ -227,6 +227,28 @@ fn directed_stale_snapshot(ctx: &mut Ctx, r: &mut Rng) {
 }
 
 
+/// one commit with `n` new blobs of ~200 bytes each, written by fast-import as a pack of its own (or as loose
+/// objects below fast-import's unpack limit); indices are examined largest first, so the size of a new pack
+/// decides where it is listed relative to the multi-pack-index
+fn import_many(repo: &Path, n: usize, r: &mut Rng, counter: &mut u64, published: &Mutex<Vec<ObjectId>>) -> &'static str {
+    *counter += 1;
+    let c = *counter;
+    let mut stream = format!("commit refs/keep/many{c}\nauthor A <a@e> 1600000000 +0000\ncommitter A <a@e> 1600000000 +0000\ndata 4\nmsg\n");
+    for i in 0..n {
+        let body: String = (0..6).map(|_| format!("{:032x}", (r.next_u64() as u128) << 64 | r.next_u64() as u128)).collect::<Vec<_>>().join("\n");
+        stream.push_str(&format!("M 100644 inline m{c}/f{i}\ndata {}\n{}\n", body.len(), body));
+    }
+    let _ = git::run_in(repo, &["-c", "fastimport.unpackLimit=1", "fast-import", "--quiet", "--force"], stream.as_bytes());
+    for spec in [format!("refs/keep/many{c}"), format!("refs/keep/many{c}^{{tree}}"), format!("refs/keep/many{c}:m{c}/f0"), format!("refs/keep/many{c}:m{c}/f{}", n - 1)] {
+        if let Ok(t) = git::ok(repo, &["rev-parse", "--verify", "-q", &spec]) {
+            if let Ok(id) = ObjectId::from_hex(t.trim().as_bytes()) {
+                published.lock().unwrap().push(id);
+            }
+        }
+    }
+    "fast-import-many-blobs"
+}
+
 /// Directed single-threaded schedule: a long-lived handle has the multi-pack-index loaded; then the
 /// multi-pack-index is rewritten to cover a new pack, and one to three further packs are added that it does not
 /// cover. Everything published before a lookup starts is on disk in a complete pack and must be found by the old
@@ -274,7 +296,11 @@ fn directed_midx_rewrite(ctx: &mut Ctx, r: &mut Rng) {
     steps.push("repack-d+midx-write");
     // further packs the multi-pack-index does not know
     for _ in 0..1 + r.usize(3) {
-        steps.push(mutate_step_fixed(&dir, r.below(3), r, &mut counter, &published));
+        if r.bool() {
+            steps.push(import_many(&dir, 20 + r.usize(80), r, &mut counter, &published));
+        } else {
+            steps.push(mutate_step_fixed(&dir, r.below(3), r, &mut counter, &published));
+        }
         if r.chance(2, 3) {
             let _ = git::run(&dir, &["repack", "-d", "-q"]);
             steps.push("repack-d");
